@@ -267,7 +267,13 @@ var devNull *os.File
 func init() { devNull, _ = os.OpenFile(os.DevNull, os.O_WRONLY, 0) }
 
 // runOn executes the block under the replica's node-local conditions, its own request traffic included.
-func (r *replica) runOn(w *world, raws [][]byte, tr *Rng) *abci.ResponseFinalizeBlock {
+// A Go panic or an error of FinalizeBlock / Commit (the node halts) is returned as an error.
+func (r *replica) runOn(w *world, raws [][]byte, tr *Rng) (res *abci.ResponseFinalizeBlock, err error) {
+	defer func() {
+		if p := recover(); p != nil {
+			res, err = nil, fmt.Errorf("panic: %v", p)
+		}
+	}()
 	if r.cfg.Procs > 0 {
 		old := runtime.GOMAXPROCS(r.cfg.Procs)
 		defer runtime.GOMAXPROCS(old)
@@ -290,7 +296,10 @@ func (r *replica) runOn(w *world, raws [][]byte, tr *Rng) *abci.ResponseFinalize
 			if tc.Reverse {
 				bz = raws[len(raws)-1-i]
 			}
-			_, _ = r.c.CheckTx(bz, false)
+			cr, err := r.c.CheckTx(bz, false)
+			if os.Getenv("VERIF_TWIN_DEBUG_KIND") != "" && err == nil {
+				fmt.Fprintf(os.Stderr, "DEBUG checktx replica %d pos %d: %s/%d %.100s\n", r.idx, i, cr.Codespace, cr.Code, cr.Log)
+			}
 		}
 	}
 	if tc.Simulate {
@@ -299,19 +308,23 @@ func (r *replica) runOn(w *world, raws [][]byte, tr *Rng) *abci.ResponseFinalize
 			w.side.Count("traffic:simulate_block_tx")
 		}
 	}
-	res, err := TwinFinalizeVoted(r.c, raws)
-	require.NoError(w.t, err)
+	res, err = TwinFinalizeVoted(r.c, raws)
+	if err != nil {
+		return nil, err
+	}
 	if tc.Window {
 		w.windowTraffic(r, tr)
 	}
-	require.NoError(w.t, TwinCommit(r.c))
+	if err := TwinCommit(r.c); err != nil {
+		return nil, err
+	}
 	if tc.Historic {
 		w.historicTraffic(r, tr)
 	}
 	if tc.Ghost && tr.Chance(40) {
 		w.ghostDeploy(r, tr)
 	}
-	return res
+	return res, nil
 }
 
 func (w *world) describeCfgs() []string {
